@@ -21,6 +21,7 @@ import (
 	"github.com/logrange/logrange/pkg/scanner/model"
 	"github.com/logrange/logrange/pkg/scanner/parser"
 	"github.com/logrange/logrange/pkg/utils"
+	"github.com/logrange/logrange/pkg/utils/verifhook"
 	"io"
 	"sync/atomic"
 	"time"
@@ -148,6 +149,7 @@ func (w *worker) waitConfirm(ctx context.Context) {
 	select {
 	case <-ctx.Done():
 	case w.confCh <- struct{}{}:
+		verifhook.At("scanner.worker.beforeSetOffset")
 		w.desc.setOffset(w.parser.GetStreamPos())
 	}
 }
